@@ -353,3 +353,106 @@ func runConcDirect(h *H, prop string) {
 	h.emit(h.line(prop, "conc").Str("oapi-direct-delete").Int(rounds).Bar().Int(badDel).Int(0))
 	h.emit(h.line(prop, "conc").Str("oapi-direct-create").Int(rounds).Bar().Int(badPut).Int(0))
 }
+
+// C14, concurrent clause: computes on a stored id race with PUT?merge=true on the same id; every
+// compute must return exactly what it would return alone on ONE of the versions that existed
+// (here: before or after each merge), never a mixture, and must not crash.
+func runConcCompute(h *H, prop string) {
+	g := h.g
+	rounds := h.budget(6, 60)
+	wd := 120 * time.Second
+	bad, crashed := 0, 0
+	var note string
+	for r := 0; r < rounds; r++ {
+		env := newOapiEnv()
+		n := 260 + g.intn(80)
+		// version A: dense-ish filler rows; rows 0 and n-1 decide the scores
+		mk := func(first, last int) mRef {
+			m := mRef{kind: "inline", size: n}
+			for i := 0; i < n; i++ {
+				for j := 0; j < n; j += 1 + (i+j)%3 {
+					m.entries = append(m.entries, mEntry{i, j, 1})
+				}
+			}
+			m.entries = append(m.entries, mEntry{0, first, 5000}, mEntry{n - 1, last, 5000})
+			return m
+		}
+		a := mk(1, 2)
+		// the merge rewrites the first and the last row completely
+		upd := mRef{kind: "inline", size: n}
+		for j := 0; j < n; j++ {
+			v := 0.0
+			if j == 2 {
+				v = 5000
+			}
+			upd.entries = append(upd.entries, mEntry{0, j, v})
+			w := 0.0
+			if j == 1 {
+				w = 5000
+			}
+			upd.entries = append(upd.entries, mEntry{n - 1, j, w})
+		}
+		// zero values are dropped by the inline loader, so express the rewrite as explicit new values
+		upd = mRef{kind: "inline", size: n}
+		for j := 0; j < n; j++ {
+			upd.entries = append(upd.entries, mEntry{0, j, map[bool]float64{true: 5000, false: 1e-9}[j == 2]})
+			upd.entries = append(upd.entries, mEntry{n - 1, j, map[bool]float64{true: 5000, false: 1e-9}[j == 1]})
+		}
+		put := func(m mRef, merge bool) int {
+			path := "/local-trust/big"
+			if merge {
+				path += "?merge=true"
+			}
+			return env.do("PUT", path, mustJSON(m.json()), wd).status
+		}
+		req := oReq{lt: mRef{kind: "stored", id: "big"}, max: ip(2), alpha: fp(0.5)}
+		reqJSON := req.json()
+		if put(a, false) != 201 {
+			continue
+		}
+		resA := env.do("POST", "/compute", reqJSON, wd)
+		put(upd, true)
+		resB := env.do("POST", "/compute", reqJSON, wd)
+		if resA.status != 200 || resB.status != 200 || string(resA.body) == string(resB.body) {
+			continue
+		}
+		// race: restore A, then computes against one concurrent merge
+		put(a, false)
+		var wg sync.WaitGroup
+		results := make([]httpRes, 6)
+		start := make(chan struct{})
+		for c := range results {
+			wg.Add(1)
+			go func(c int) {
+				defer wg.Done()
+				<-start
+				time.Sleep(time.Duration(c) * 300 * time.Microsecond)
+				results[c] = env.do("POST", "/compute", reqJSON, wd)
+			}(c)
+		}
+		wg.Add(1)
+		go func() {
+			defer wg.Done()
+			<-start
+			time.Sleep(time.Duration(g.intn(1500)) * time.Microsecond)
+			put(upd, true)
+		}()
+		close(start)
+		wg.Wait()
+		for _, res := range results {
+			switch {
+			case res.outcome != "" || res.status >= 500:
+				crashed++
+			case res.status == 200 && string(res.body) != string(resA.body) && string(res.body) != string(resB.body):
+				bad++
+				if note == "" {
+					note = fmt.Sprintf("round %d: a compute racing with PUT?merge=true returned scores of neither version", r)
+				}
+			}
+		}
+	}
+	h.emit(h.line(prop, "conc").Str("compute-vs-merge").Int(rounds).Bar().Int(bad + crashed).Int(0))
+	if note != "" {
+		h.notes["compute_vs_merge"] = note
+	}
+}
